@@ -26,7 +26,49 @@ def inc_b(o, c):
   o.b += c
 
 
-OPS = {'+=': inc, '-=': dec, '*=': mul, '=': setk, 'read': rd, 'b+=': inc_b}
+def shl(o, c):
+  o.a <<= c
+
+
+def shr(o, c):
+  o.a >>= c
+
+
+def fdiv(o, c):
+  o.a //= c
+
+
+def mod(o, c):
+  o.a %= c
+
+
+def bor(o, c):
+  o.a |= c
+
+
+def band(o, c):
+  o.a &= c
+
+
+def bxor(o, c):
+  o.a ^= c
+
+
+OPS = {'+=': inc, '-=': dec, '*=': mul, '=': setk, 'read': rd, 'b+=': inc_b,
+       '<<=': shl, '>>=': shr, '//=': fdiv, '%=': mod, '|=': bor, '&=': band, '^=': bxor}
+AUG_FUNCS = ('inc', 'dec', 'mul', 'inc_b', 'shl', 'shr', 'fdiv', 'mod', 'bor', 'band', 'bxor')
+
+import operator as _op
+APPLY = {'+=': _op.add, '-=': _op.sub, '*=': _op.mul, '<<=': _op.lshift, '>>=': _op.rshift, '//=': _op.floordiv, '%=': _op.mod,
+         '|=': _op.or_, '&=': _op.and_, '^=': _op.xor}
+ARG = {'+=': (1, 9), '-=': (1, 9), '*=': (2, 3), '=': (10, 99), 'b+=': (1, 9), '<<=': (1, 2), '>>=': (1, 2), '//=': (2, 3), '%=': (5, 9),
+       '|=': (1, 15), '&=': (1, 15), '^=': (1, 15)}
+
+
+def gen_op(rng):
+  """(operator, argument): every augmented-assignment operator of integers, plain assignment, plain read, and += on a second attribute"""
+  op = rng.choice(['+=', '+=', '-=', '*=', '=', '=', 'read', 'b+=', '<<=', '>>=', '//=', '%=', '|=', '&=', '^='])
+  return (op, None if op == 'read' else rng.randint(*ARG[op]))
 
 
 def worker(o, plan, out):
